@@ -405,10 +405,80 @@ def verifyClaimStatic (c : Claim) (nMembers : Nat) : String :=
   if signaturesCount > nMembers then "Too many signatures" else
   if ¬ validateMembersIndices c.signing nMembers then "Corrupted members indices" else ""
 
+/-! ### the same checks with every comparison *generated from the Solidity text*
+
+`Gen.C40.vfOp<k>` / `vcOp<k>` / `viOp<k>` is the k-th comparison operator occurring in the
+`if (…)` / `require(…)` conditions of `validateFields` / `verifyClaim` / `validateMembersIndices`
+(textual order, loop headers excluded).  The monitor runs these versions, so an edited operator in
+the contract (`<` → `<=`) changes the monitor and produces a concrete rejected client result;
+`Props/C40.lean` proves them equal to the plain versions above for the unchanged contract. -/
+
+/-- some adjacent pair satisfies `op` (a validation loop with `if (op a[i-1] a[i]) fail`) -/
+def chainAny (op : Nat → Nat → Bool) : List Nat → Bool
+  | a :: b :: rest => op a b || chainAny op (b :: rest)
+  | _ => false
+
+/-- all adjacent pairs satisfy `op` (a validation loop with `require(op a[i] a[i+1])`) -/
+def chainAll (op : Nat → Nat → Bool) : List Nat → Bool
+  | a :: b :: rest => op a b && chainAll op (b :: rest)
+  | _ => true
+
+open Gen.C40 in
+def validateFieldsGen (r : DkgResult) : String :=
+  if vfOp0 r.groupPubKey.length publicKeyByteSize then "Malformed group public key" else
+  let mis := r.misbehaved
+  if groupSize < mis.length then "REVERT" else
+  if vfOp1 (groupSize - mis.length) activeThreshold then "Too many members misbehaving during DKG" else
+  if vfOp2 mis.length 1 && (vfOp3 (mis.headD 0) 1 || vfOp4 (mis.getLastD 0) groupSize) then
+    "Corrupted misbehaved members indices" else
+  if vfOp2 mis.length 1 && chainAny vfOp5 mis then "Corrupted misbehaved members indices" else
+  let signaturesCount := r.signatures.length / signatureByteSize
+  if vfOp6 r.signatures.length 0 then "No signatures provided" else
+  if vfOp7 (r.signatures.length % signatureByteSize) 0 then "Malformed signatures array" else
+  if vfOp8 signaturesCount r.signing.length then "Unexpected signatures count" else
+  if vfOp9 signaturesCount groupThreshold then "Too few signatures" else
+  if vfOp10 signaturesCount groupSize then "Too many signatures" else
+  match r.signing with
+  | [] => "REVERT"
+  | s0 :: _ =>
+    if vfOp11 s0 1 || vfOp12 (r.signing.getLastD 0) groupSize then "Corrupted signing member indices" else
+    if chainAny vfOp13 r.signing then "Corrupted signing member indices" else ""
+
+open Gen.C40 in
+def validateMembersIndicesGen (indices : List Nat) (groupSize : Nat) : Bool :=
+  (viOp0 indices.length 0 && viOp1 indices.length groupSize) &&
+  (viOp2 (indices.headD 0) 0 && viOp3 (indices.getLastD 0) groupSize) &&
+  chainAll viOp4 indices
+
+open Gen.C40 in
+def verifyClaimStaticGen (c : Claim) (nMembers : Nat) : String :=
+  if !validateMembersIndicesGen c.inactive nMembers then "Corrupted members indices" else
+  let signaturesCount := c.signatures.length / inactSignatureByteSize
+  if !vcOp0 c.signatures.length 0 then "No signatures provided" else
+  if !vcOp1 (c.signatures.length % inactSignatureByteSize) 0 then "Malformed signatures array" else
+  if !vcOp2 signaturesCount c.signing.length then "Unexpected signatures count" else
+  if !vcOp3 signaturesCount inactGroupThreshold then "Too few signatures" else
+  if !vcOp4 signaturesCount nMembers then "Too many signatures" else
+  if !validateMembersIndicesGen c.signing nMembers then "Corrupted members indices" else ""
+
 /-- `abi.encode(block.chainid, nonce, walletPubKey, claim.inactiveMembersIndices, claim.heartbeatFailed)` -/
 def claimPreimageContract (chainid nonce : Nat) (walletPubKey : Bytes) (c : Claim) : Option Bytes :=
   encodeTyped Gen.C40.solInactTypes
     [.num chainid, .num nonce, .bytes walletPubKey, .arr c.inactive, .bool c.heartbeatFailed]
+
+/-- the signature loop of `EcdsaInactivity.verifyClaim`: signature `i` must recover to
+    `groupMembersAddresses[signingMembersIndices[i] - 1]` (`addrOf` = `getIDOperators`).
+    `some false` = revert "Invalid signature", `none` = another revert (index arithmetic, malformed
+    signature).  The final `require(senderSignatureExists)` depends on `msg.sender` (who submits)
+    and is not part of the claim's content; it is not modelled. -/
+def verifyClaimSignatures (H : Bytes → Bytes) (recover : Bytes → Bytes → Option Nat)
+    (addrOf : Nat → Nat) (chainid nonce : Nat) (walletPubKey : Bytes) (c : Claim)
+    (groupMembers : List Nat) : Option Bool :=
+  match claimPreimageContract chainid nonce walletPubKey c, pickMembers groupMembers c.signing with
+  | some pre, some ids =>
+    checkSigLoop recover (ethSigned H (H pre)) c.signatures inactSignatureByteSize (ids.map addrOf)
+      (List.range (c.signatures.length / inactSignatureByteSize))
+  | _, _ => none
 
 /-! ## monitor -/
 
@@ -458,7 +528,7 @@ def holdsDkg (H : Bytes → Bytes) (inp : DkgInput) (real : List Nat) : Option D
        o.res.members == inp.ids && o.res.submitter == inp.submitter &&
        realRecovered o.res.signing o.recovered real)) &&
     (!dkgSubmittable inp ||
-      (validateFields o.res == "" &&
+      (validateFieldsGen o.res == "" &&
        (!(inp.sigs.all (fun s => real.contains s.1)) || (o.recovered.all id && o.recovered.length == inp.sigs.length))))
 
 def claimInDomain (inp : ClaimInput) : Bool :=
@@ -484,7 +554,7 @@ def holdsClaim (H : Bytes → Bytes) (inp : ClaimInput) (real : List Nat) : Opti
        o.claim.walletID == inp.walletID && o.claim.heartbeatFailed == inp.heartbeatFailed &&
        realRecovered o.claim.signing o.recovered real)) &&
     (!claimSubmittable inp ||
-      (verifyClaimStatic o.claim inp.ids.length == "" &&
+      (verifyClaimStaticGen o.claim inp.ids.length == "" &&
        (!(inp.sigs.all (fun s => real.contains s.1)) || (o.recovered.all id && o.recovered.length == inp.sigs.length))))
 
 end KeepVerif.C40
